@@ -248,7 +248,7 @@ var vpC20Indirect = map[string]string{
 	"ListenNew": "constructor", "MoveNew": "constructor", "OfferNew": "constructor", "ReadNew": "constructor", "RejectNew": "constructor",
 	"RemoveNew": "constructor", "TentativeAcceptNew": "constructor", "TentativeRejectNew": "constructor", "UndoNew": "constructor",
 	"UpdateNew": "constructor", "ViewNew": "constructor",
-	"ErrorInvalidType":  "error constructor",
+	"ErrorInvalidType": "error constructor",
 	// the Equals / Contains / ItemsMatch methods are not listed here any more: "reached through ItemsEqual"
 	// was not true for nil pointers (ItemsEqual answers before calling them); they are driven directly by
 	// the synthesised calls of vpH_C20_auto, on a zero receiver
